@@ -46,10 +46,19 @@ type Program struct {
 	ghostMaps  map[string]string // "#name" -> Go type of the key (ghost counters indexed by a value)
 	ghostVals  map[string]string // "#name" -> Go type of the value (default int)
 	guards     map[string]guardInfo // heap array "H_T.f" -> mutex guarding it
+	lockInvs   map[string]*lockInv  // "T.mu" -> invariant of the state that mutex guards (over self *T)
+	interference bool               // concurrent reading of critical sections (see lockOp)
 	muIDs      map[string]int
 }
 
+type lockInv struct {
+	st    types.Type
+	muIdx int
+	cl    *Clause
+}
+
 type guardInfo struct {
+	fIdx    int
 	muField string
 	st      types.Type
 	muIdx   int
@@ -62,7 +71,7 @@ func loadProgram(repo string, overlayContract string, force bool) (*Program, err
 		Env: append(os.Environ(), "GOFLAGS=-mod=mod", "GOPROXY=off", "GOSUMDB=off", "GOTOOLCHAIN=local")}
 	p := &Program{repo: repo, contracts: map[string]*Contract{}, specs: map[string]*SpecFn{}, lemmas: map[string]*Lemma{},
 		ifaceCons: map[string]*Contract{}, pures: map[string]bool{}, funcs: map[string]*ssa.Function{},
-		tags: map[string]int{}, comparable: map[string]bool{}, ghostMaps: map[string]string{}, ghostVals: map[string]string{}, guards: map[string]guardInfo{}, appendLemmas: map[string][]string{}, usedLemmas: map[string]bool{}, fieldInvs: map[string]*Clause{}, elemInvs: map[string]*Clause{}, typeInvs: map[string]*Clause{}, strLits: map[string]string{}, srcLines: map[string][]string{}, impls: map[string][]*ssa.Function{}}
+		tags: map[string]int{}, comparable: map[string]bool{}, ghostMaps: map[string]string{}, ghostVals: map[string]string{}, guards: map[string]guardInfo{}, lockInvs: map[string]*lockInv{}, interference: interferenceMode, appendLemmas: map[string][]string{}, usedLemmas: map[string]bool{}, fieldInvs: map[string]*Clause{}, elemInvs: map[string]*Clause{}, typeInvs: map[string]*Clause{}, strLits: map[string]string{}, srcLines: map[string][]string{}, impls: map[string][]*ssa.Function{}}
 	// contract files: pkg/ggql/verif_contracts*.go in the tree; the mirror under <verif>/contracts is
 	// injected through an overlay for files the tree lacks (or for all of them in development mode)
 	mirrorDir := filepath.Dir(overlayContract)
@@ -362,7 +371,10 @@ func isMutex(t types.Type) bool {
 // muAddr: identity of the mutex stored in field i of the struct at base. Plain address arithmetic (base + offset) can
 // coincide for mutexes of different objects, so the identity is base*1024 + id with a program-wide id per
 // (struct type, field): injective in (base, id) for id < 1024.
-func (p *Program) muAddr(e *Enc, base T, st types.Type, i int) T {
+// interferenceMode is set by main before the program is loaded (-interference, implied by -prop C20).
+var interferenceMode bool
+
+func (p *Program) muID(st types.Type, i int) int {
 	if p.muIDs == nil {
 		p.muIDs = map[string]int{}
 	}
@@ -373,6 +385,11 @@ func (p *Program) muAddr(e *Enc, base T, st types.Type, i int) T {
 		id = len(p.muIDs) + 1
 		p.muIDs[key] = id
 	}
+	return id
+}
+
+func (p *Program) muAddr(e *Enc, base T, st types.Type, i int) T {
+	id := p.muID(st, i)
 	// an uninterpreted pairing function with inverses (injective), rather than arithmetic on addresses
 	fn := e.declFun("muid", []Sort{SInt, SInt}, SInt)
 	if len(e.facts[fn]) == 0 {
